@@ -39,7 +39,11 @@ def dates_for(tier, seed):
 
 def plan(tier, seed):
     k_pop = 3 if tier == "quick" else 8
-    return [dict(date=str(d), k=k, seed=seed) for d in dates_for(tier, seed) for k in range(k_pop)]
+    ds = dates_for(tier, seed)
+    items = [dict(date=str(d), k=k, seed=seed) for d in ds for k in range(k_pop)]
+    # table-driven inputs through their whole domain (ages 0-100, cohorts, household sizes x Mietstufe ...)
+    items += [dict(date=str(d), k=900, seed=seed, domain=True) for i, d in enumerate(ds) if tier == "thorough" or i % 3 == 0]
+    return items
 
 
 def worker_init():
@@ -65,8 +69,12 @@ def run_item(item):
     rng = rng_for(item["seed"], PROPERTY, d.toordinal(), item["k"])
     params, functions = env.environment(d)
     corner = CORNERS[item["k"] % len(CORNERS)]
-    df = popgen.population(rng, d, n_hh=int(rng.integers(8, 16)), params=params, corner=corner)
-    df = popgen.branch_reach(rng, df, d, params)
+    if item.get("domain"):
+        df = popgen.domain_sweep(rng, d, params)
+        corner = "domain_sweep"
+    else:
+        df = popgen.population(rng, d, n_hh=int(rng.integers(8, 16)), params=params, corner=corner)
+        df = popgen.branch_reach(rng, df, d, params)
     if item["k"] % 2:
         df = df.iloc[rng.permutation(len(df))].reset_index(drop=True)
     res = dict(date=item["date"], k=item["k"], pop=popgen.digest(df), persons=len(df), runs=0, violations=[],
